@@ -134,4 +134,36 @@ def jsonPatchAddTemplate : String := "{ \"op\": \"add\", \"path\": \"/%s\", \"va
 /-- C03: the unique suffix is the model multihash of the suffix data under the *first* configured algorithm -/
 def uniqueSuffixCalls : List String := ["hashing.CalculateModelMultihash(model, algs[0])"]
 
+/-! ### transformer (didtransformer/transformer.go) -/
+
+/-- C18: key type ↦ JSON-LD context (sorted by key type) -/
+def keyContexts : List (String × String) :=
+  [("Bls12381G2Key2020", "https://w3id.org/security/suites/bls12381-2020/v1"),
+   ("EcdsaSecp256k1VerificationKey2019", "https://w3id.org/security/suites/secp256k1-2019/v1"),
+   ("Ed25519VerificationKey2018", "https://w3id.org/security/suites/ed25519-2018/v1"),
+   ("Ed25519VerificationKey2020", "https://w3id.org/security/suites/ed25519-2020/v1"),
+   ("JsonWebKey2020", "https://w3id.org/security/suites/jws-2020/v1"),
+   ("X25519KeyAgreementKey2019", "https://w3id.org/security/suites/x25519-2019/v1")]
+
+/-- C18: the purpose switch of `processKeys` (purpose constant ↦ relationship member constant) -/
+def purposeSwitch : List (String × String) :=
+  [("authentication", "authentication"), ("assertionMethod", "assertionMethod"), ("keyAgreement", "keyAgreement"),
+   ("capabilityDelegation", "capabilityDelegation"), ("capabilityInvocation", "capabilityInvocation")]
+
+/-- C18: `sortOperations` comparator as (condition, result) rows: differing times decide, otherwise numbers -/
+def sortCmp : List String :=
+  ["if ops[i].TransactionTime != ops[j].TransactionTime {", "  return ops[i].TransactionTime < ops[j].TransactionTime", "}",
+   "return ops[i].TransactionNumber < ops[j].TransactionNumber"]
+
+/-- C17: the default protocol of the long-form handler (config/protocol.go), Go field ↦ source value -/
+def defaultProtocol : List (String × String) :=
+  [("CompressionAlgorithm", "\"GZIP\""), ("GenesisTime", "0"),
+   ("KeyAlgorithms", "[]string{\"Ed25519\", \"P-256\", \"P-384\", \"secp256k1\"}"), ("MaxCasURILength", "500"),
+   ("MaxChunkFileSize", "10000000"), ("MaxCoreIndexFileSize", "1000000"), ("MaxDeltaSize", "1700"),
+   ("MaxMemoryDecompressionFactor", "3"), ("MaxOperationCount", "10000"), ("MaxOperationHashLength", "100"),
+   ("MaxOperationSize", "2500"), ("MaxProofFileSize", "2500000"), ("MaxProvisionalIndexFileSize", "1000000"),
+   ("MultihashAlgorithms", "[]uint{18}"), ("NonceSize", "16"),
+   ("Patches", "[]string{\"replace\", \"add-public-keys\", \"remove-public-keys\", \"add-services\", \"remove-services\", \"add-also-known-as\", \"remove-also-known-as\"}"),
+   ("SignatureAlgorithms", "[]string{\"EdDSA\", \"ES256\", \"ES256K\"}")]
+
 end Sidetree.Expected
